@@ -185,10 +185,14 @@ theorem pass_psV5Connect (c : C) (p : Pkt) (hs : sizeOk c p = true) (h : c.s.sta
 theorem pass_connackTail (c c0 : C) (p : Pkt) (h : Ext c0 c) :
     Ext c0 (if p.rc ≠ some 0 then
         (cancelTimers { c with s := { c.s with status := .disconnected } }).push .close
-      else sendPostProcess (sendStored { c with s := { c.s with status := .connected } })) := by
+      else sendPostProcess (if p.sp then sendStored { c with s := { c.s with status := .connected } }
+        else clearStoreRelated { c with s := { c.s with status := .connected } })) := by
   split
   · exact Ext.push (Ext.trans (Ext.setS h _) (ext_cancelTimers _)) _ rfl
-  · exact Ext.trans (Ext.trans (Ext.setS h _) (ext_sendStored _)) (ext_sendPostProcess _)
+  · refine Ext.trans ?_ (ext_sendPostProcess _)
+    split
+    · exact Ext.trans (Ext.setS h _) (ext_sendStored _)
+    · exact Ext.trans (Ext.setS h _) (Ext.of_ev rfl)
 
 theorem pass_psV3Connack (c : C) (p : Pkt) (h : c.s.status = .connecting) : Ext c (psV3Connack c p) := by
   unfold psV3Connack
